@@ -104,10 +104,22 @@ def run_case(row: dict[str, Any]) -> dict[str, Any]:
         kw: dict[str, Any] = {}
         if noise:
             kw["noise_psk"] = base64.b64encode(PSK).decode()
-        if row["expected_set"]:
+        via = row.get("expected_via", "constructor")
+        if row["expected_set"] and via == "constructor":
             kw["expected_name"] = EXPECTED
         cli = sim.client("10.0.0.1", 6053, row["password"], **kw)
-        call = sim.call("connect", lambda: cli.connect(on_stop=sim.on_stop_cb(), login=login))
+        if row["expected_set"] and via == "setter-before-start":
+            cli.expected_name = EXPECTED
+        if via == "setter-between-phases":
+            # the expected name is configured (public setter) after the socket is open and before the session is set up
+            async def two_phase() -> None:
+                await cli.start_connection(on_stop=sim.on_stop_cb())
+                if row["expected_set"]:
+                    cli.expected_name = EXPECTED
+                await cli.finish_connection(login=login)
+            call = sim.call("connect", two_phase)
+        else:
+            call = sim.call("connect", lambda: cli.connect(on_stop=sim.on_stop_cb(), login=login))
         end = sim.run(until=lambda: call.done, max_time=sim.clock + 200)
         sim.settle()
         v = sim.conns[0] if sim.conns else None
@@ -208,6 +220,11 @@ def rows(ctx: Ctx) -> Any:
                     i += 1
                     yield i, {"framing": framing, "major": major, "minor": minor, "api_name": api_name, "noise_name": noise_name,
                               "invalid_password": inv, "login": login, "expected_set": exp_set, "packaging": pk, "password": password}
+        # the expected name configured through the public setter instead of the constructor, before the attempt or between its two phases
+        for via, api_name, noise_name, login in itertools.product(("setter-before-start", "setter-between-phases"), NAMES, noise_names, (False, True)):
+            i += 1
+            yield i, {"framing": framing, "major": 1, "minor": 10, "api_name": api_name, "noise_name": noise_name, "invalid_password": False, "login": login,
+                      "expected_set": True, "packaging": "separate", "password": "pw", "expected_via": via}
 
 
 def shard(ctx: Ctx) -> None:
@@ -225,7 +242,7 @@ def shard(ctx: Ctx) -> None:
         res.count(f"packaging/{row['packaging']}")
         exp = row["expected_set"]
         res.sig(row["framing"], min(row["major"], 5), row["api_name"] if exp else "-", row["noise_name"] if exp else "-",
-                row["invalid_password"] and row["login"], row["packaging"], cls)
+                row["invalid_password"] and row["login"], row["packaging"], cls, row.get("expected_via"))
         if exp and row["api_name"] == "empty":
             res.count(f"unjudged/empty-api-hello-name-with-expected-name/{o['outcome']}")
         # device-side view of the client's hello/login (bonus wire check)
